@@ -175,6 +175,8 @@ func (listener *tcpLineListener) runConnection(connLogger logger.Logger, conn *n
 			// TODO: close lingering connections if they don't send anything for hours or days
 			mlineReader.Flush()
 			recvChan.Flush()
+			// the flush of this period is done: the deadline renewed by the next read is not a reason to flush again
+			prevDeadline = emptyTime
 			continue
 		}
 		
